@@ -49,7 +49,13 @@ def w_descr_delete(p):
     return lambda: A.EVENT_BY_NAME['delete(N2)'](p)
 
 
+def w_event(name):
+    return lambda p: (lambda: A.EVENT_BY_NAME[name](p))
+
+
 WRITERS = {'metric': lambda p: w_metric(p, 7), 'metric2': lambda p: w_metric(p, 8), 'location': w_location,
+           'rt': w_event('rt(1,2,3)'), 'alert': w_event('alert-cond(on)'), 'component': w_event('component(vmd0,on)'),
+           'operational': w_event('operational(dis)'),
            'patient': w_patient, 'descr-update': w_descr_update, 'descr-create': w_descr_create,
            'descr-delete': w_descr_delete}
 
@@ -96,6 +102,12 @@ SCENARIOS = [
     (['GetMdState(all)'], ['descr-delete']),
     (['GetMdState(N1,N2,PAT)'], ['descr-update']),
     (['GetContextStates'], ['patient']),
+    # every transaction kind against the two requests that return all states
+    (['GetMdib'], ['rt']),
+    (['GetMdState(all)'], ['rt']),
+    (['GetMdib'], ['alert']),
+    (['GetMdState(all)'], ['component']),
+    (['GetMdib'], ['operational']),
 ]
 SCENARIOS_2 = [
     (['GetMdib'], ['metric', 'metric2']),
